@@ -9,6 +9,8 @@ the fixed, dynamic and zeroed arrays agree except for the initialised-test primi
 use the shifted search range for b->a; the hand-over between arrays and the MIN / MAX /
 array-edge sentinels; the loop cursor (tick := next - 1 iff a_to_b, array index advance at
 the array edge of the trade direction).
+Also decided: supplemental tick arrays reach the builder of their own pool (C15.R5b instances re-decided
+here);
 Not decided: equivalence of outcomes over all layouts / encodings / orders."""
 from analysis import cfg, atoms as A, preach, siblings as S
 from analysis.ir import callee_path, AnchorMissing
